@@ -116,6 +116,35 @@ impl From<&V7> for NetflowCommon {
     }
 }
 
+/// Protocol number of a decoded PROTOCOL field. The V9 parser yields
+/// `FieldValue::ProtocolType`; hand-built structures may carry a plain number.
+fn protocol_number_of(value: &FieldValue) -> Option<u8> {
+    match value {
+        FieldValue::ProtocolType(protocol) => Some(u8::from(*protocol)),
+        value => value.try_into().ok(),
+    }
+}
+
+/// Protocol type of a decoded PROTOCOL field, see `protocol_number_of`.
+fn protocol_type_of(value: &FieldValue) -> Option<ProtocolTypes> {
+    match value {
+        FieldValue::ProtocolType(protocol) => Some(*protocol),
+        value => value
+            .try_into()
+            .ok()
+            .map(|proto: u8| ProtocolTypes::from(proto)),
+    }
+}
+
+/// SysUptime milliseconds of a first/last switched field. The V9 parser yields a
+/// `FieldValue::Duration` for these; hand-built structures may carry a plain number.
+fn uptime_millis_of(value: &FieldValue) -> Option<u32> {
+    match value {
+        FieldValue::Duration(duration) => u32::try_from(duration.as_millis()).ok(),
+        value => value.try_into().ok(),
+    }
+}
+
 impl From<&V9> for NetflowCommon {
     fn from(value: &V9) -> Self {
         // Convert V9 to NetflowCommon
@@ -143,18 +172,16 @@ impl From<&V9> for NetflowCommon {
                             .and_then(|v| v.try_into().ok()),
                         protocol_number: value_map
                             .get(&V9Field::Protocol)
-                            .and_then(|v| v.try_into().ok()),
-                        protocol_type: value_map.get(&V9Field::Protocol).and_then(|v| {
-                            v.try_into()
-                                .ok()
-                                .map(|proto: u8| ProtocolTypes::from(proto))
-                        }),
+                            .and_then(protocol_number_of),
+                        protocol_type: value_map
+                            .get(&V9Field::Protocol)
+                            .and_then(protocol_type_of),
                         first_seen: value_map
                             .get(&V9Field::FirstSwitched)
-                            .and_then(|v| v.try_into().ok()),
+                            .and_then(uptime_millis_of),
                         last_seen: value_map
                             .get(&V9Field::LastSwitched)
-                            .and_then(|v| v.try_into().ok()),
+                            .and_then(uptime_millis_of),
                         src_mac: value_map
                             .get(&V9Field::InSrcMac)
                             .and_then(|v| v.try_into().ok()),
